@@ -87,6 +87,10 @@ type DB struct {
 	// its error; a process that is killed by the caller's error handling can
 	// leave a record here.
 	OnFail func(f *Failure)
+	// AfterWrite runs (no journal lock held) after every write that was applied
+	// and recorded, with the number of events recorded so far; a process can end
+	// itself here to die exactly between two writes.
+	AfterWrite func(n int)
 }
 
 // New wraps inner. base is the content of inner at this moment (may be nil if
@@ -165,11 +169,16 @@ func (d *DB) record(ev Event, apply func() error) error {
 		}
 		return ErrInjected
 	}
-	defer d.mu.Unlock()
 	if err := apply(); err != nil {
+		d.mu.Unlock()
 		return err
 	}
 	d.events = append(d.events, ev)
+	n, aw := len(d.events), d.AfterWrite
+	d.mu.Unlock()
+	if aw != nil {
+		aw(n)
+	}
 	return nil
 }
 
